@@ -211,6 +211,8 @@ class ConcMode:
     def tarray(self, name, length, sample_shape, dtype):
         """Concrete stand-in for arbitrary sample values: every element distinct."""
         n = int(length)
+        if n > 100000:
+            raise PreconditionFailed(f"length {n} too large to replay concretely")
         dt = np.dtype(dtype)
         size = int(np.prod(sample_shape)) if sample_shape else 1
         base = np.arange(n * size, dtype=np.float64).reshape((n,) + tuple(sample_shape))
